@@ -9,10 +9,12 @@ import Driver.CtlD
 import Driver.TconnectD
 import Driver.XpollD
 import Driver.BtlsD
+import Driver.TpD
 
 def main (args : List String) : IO UInt32 := do
   match args with
   | ["attrmap"] => Driver.AttrMapD.main; return 0
+  | ["tp"] => Driver.TpD.main; return 0
   | ["btls"] => Driver.BtlsD.main; return 0
   | ["xpoll"] => Driver.XpollD.main; return 0
   | ["tconnect"] => Driver.TconnectD.main; return 0
